@@ -670,9 +670,9 @@ fn main() {
 
     //---------------------------------------------------------------- depth 3
     {
-        let n = ctx.tier.pick(3u32, 4u32);
+        let n = ctx.tier.pick(4u32, 5u32);
         let sp = ctx.space("depth3",
-            &format!("TA(all) -> CA1(AS subset A, refuse) -> CA2(claim B: inherit|subset, trim) -> EE(claim C: inherit|subset, refuse|trim) over a {n}-atom AS universe; oracle: composed bitmask model; the EE result is inside CA2's, CA1's and the TA's; non-trivial = all three subsets pairwise different"));
+            &format!("TA(all) -> CA1(AS subset A, refuse) -> CA2(claim B: inherit|subset, trim) -> leaf(claim C: inherit|subset, refuse|trim) over a {n}-atom AS universe, the leaf being an EE certificate (through validate_ee_at and through validate_detached_ee_at), a CA certificate or a router certificate (blocks only; inherit must be refused): the leaf is validated under the ResourceCert that the EARLIER call validate_ca_at(CA2 under CA1) returned, whose effective resources differ from what CA2's certificate says whenever CA2 inherits or was trimmed; oracle: composed bitmask model; the result is inside CA2's, CA1's and the TA's; non-trivial = all three subsets pairwise different"));
         let ip_fill = Claim::Blocks(vec![(0x0a00_0000, 0x0aff_ffff)]);
         let claims: Vec<LeafClaim> = std::iter::once(LeafClaim::Inherit).chain((1..(1u32 << n)).map(LeafClaim::Blocks)).collect();
         let ca1s: Vec<(u32, ResourceCert)> = (1..(1u32 << n)).map(|a| {
@@ -683,11 +683,14 @@ fn main() {
             let r = Res { v4: Claim::Inherit, v6: Claim::Missing, asn: claim_of(Fam::As, b, n) };
             (b, build_cert_der(&signer, &Spec::issued(Kind::Ca, CA2_KEY, CA_KEY, signer.ski(CA_KEY), r, Overclaim::Trim)))
         }).collect();
-        let mut ee_specs = Vec::new();
-        for mode in [Overclaim::Refuse, Overclaim::Trim] { for &c in &claims { ee_specs.push((mode, c)) } }
-        let ee_ders: Vec<(Overclaim, LeafClaim, Vec<u8>)> = ee_specs.par_iter().map(|&(mode, c)| {
-            let r = Res { v4: Claim::Inherit, v6: Claim::Missing, asn: claim_of(Fam::As, c, n) };
-            (mode, c, build_cert_der(&signer, &Spec::issued(Kind::Ee, LEAF_KEY, CA2_KEY, signer.ski(CA2_KEY), r, mode)))
+        // (kind, through the detached entry point?)
+        let routes: [(Kind, bool); 4] = [(Kind::Ee, false), (Kind::Ee, true), (Kind::Ca, false), (Kind::Router, false)];
+        let mut leaf_specs = Vec::new();
+        for kind in [Kind::Ee, Kind::Ca, Kind::Router] { for mode in [Overclaim::Refuse, Overclaim::Trim] { for &c in &claims { leaf_specs.push((kind, mode, c)) } } }
+        let leaf_ders: Vec<(Kind, Overclaim, LeafClaim, Vec<u8>)> = leaf_specs.par_iter().map(|&(kind, mode, c)| {
+            let v4 = if kind == Kind::Router { Claim::Missing } else { Claim::Inherit };
+            let r = Res { v4, v6: Claim::Missing, asn: claim_of(Fam::As, c, n) };
+            (kind, mode, c, build_cert_der(&signer, &Spec::issued(kind, LEAF_KEY, CA2_KEY, signer.ski(CA2_KEY), r, mode)))
         }).collect();
         ca1s.par_iter().for_each(|(a, ca1)| {
             for (b, d2) in &ca2_ders {
@@ -695,31 +698,42 @@ fn main() {
                     Ok(x) => x, Err(e) => { ctx.fail("C01.depth3.ca2", format!("A={a:#x} B={b:?}"), e.to_string()); continue }
                 };
                 let m2 = model(*a, *b, Overclaim::Trim).unwrap();
-                for (mode, c, d3) in &ee_ders {
+                for (kind, mode, c, d3) in &leaf_ders { for &(rk, detached) in &routes {
+                    if rk != *kind { continue }
                     sp.eval();
                     if let (LeafClaim::Blocks(bb), LeafClaim::Blocks(cc)) = (b, c) { if bb != a && cc != bb && cc != a { sp.nontrivial(1) } }
-                    let wit = || format!("A={a:#x} B={b:?} C={c:?} mode={}", mode_name(*mode));
-                    let want = model(m2, *c, *mode);
-                    match guard(|| Cert::decode(d3.as_slice()).unwrap().validate_ee_at(&ca2, true, time(T0))) {
+                    let wit = || format!("A={a:#x} B={b:?} leaf={}{} C={c:?} mode={}", kind_name(*kind), if detached { "(detached)" } else { "" }, mode_name(*mode));
+                    // router certificates must carry AS blocks (not inherit): the profile says so
+                    let want = if *kind == Kind::Router && !matches!(c, LeafClaim::Blocks(_)) { None } else { model(m2, *c, *mode) };
+                    let cert = match Cert::decode(d3.as_slice()) {
+                        Ok(c) => c,
+                        Err(e) => { if want.is_some() { ctx.fail("C01.depth3.accept", wit(), format!("built certificate does not decode: {e}")) } else { sp.outcome("rejected") } continue }
+                    };
+                    let got = guard(|| if detached { validate_detached(cert, &ca2, true, time(T0)) } else { validate(*kind, cert, &ca2, true, time(T0)) });
+                    match got {
                         Err(p) => ctx.fail("C01.depth3.nopanic", wit(), p),
-                        Ok(Err(e)) => { sp.outcome("rejected"); if want.is_some() { ctx.fail("C01.depth3.accept", wit(), e.to_string()) } }
+                        Ok(Err(e)) => { sp.outcome("rejected"); if want.is_some() { ctx.fail("C01.depth3.accept", wit(), e) } }
                         Ok(Ok(rc)) => { sp.outcome("accepted");
-                            match (want, mask_of_as(rc.as_resources(), n)) {
-                                (None, _) => ctx.fail("C01.depth3.reject", wit(), "accepted although the claim exceeds the intermediate CA's trimmed resources"),
-                                (Some(w), Ok(m)) => {
-                                    if m != w { ctx.fail("C01.depth3.result", wit(), format!("result {m:#x} model {w:#x}")) }
-                                    if m & !m2 != 0 || m & !a != 0 { ctx.fail("C01.depth3.subset", wit(), format!("result {m:#x} escapes an ancestor (CA2 {m2:#x}, CA1 {a:#x})")) }
-                                    if !ca2.v4_resources().contains(rc.v4_resources()) || !ca1.v4_resources().contains(rc.v4_resources()) { ctx.fail("C01.depth3.subset", wit(), "v4 result escapes an ancestor") }
+                            match (want, rc) {
+                                (None, _) => ctx.fail("C01.depth3.reject", wit(), "accepted although the claim exceeds the intermediate CA's effective (inherited / trimmed) resources"),
+                                (Some(_), None) => {}   // router certificates: the verdict is all there is
+                                (Some(w), Some(rc)) => match mask_of_as(rc.as_resources(), n) {
+                                    Ok(m) => {
+                                        if m != w { ctx.fail("C01.depth3.result", wit(), format!("result {m:#x} model {w:#x}")) }
+                                        if m & !m2 != 0 || m & !a != 0 { ctx.fail("C01.depth3.subset", wit(), format!("result {m:#x} escapes an ancestor (CA2 {m2:#x}, CA1 {a:#x})")) }
+                                        if !ca2.v4_resources().contains(rc.v4_resources()) || !ca1.v4_resources().contains(rc.v4_resources()) { ctx.fail("C01.depth3.subset", wit(), "v4 result escapes an ancestor") }
+                                    }
+                                    Err(e) => ctx.fail("C01.depth3.result", wit(), e),
                                 }
-                                (Some(_), Err(e)) => ctx.fail("C01.depth3.result", wit(), e),
                             }
                         }
                     }
-                }
+                }}
             }
         });
-        sp.sample_str(|| "A=0x3 B=Blocks(0x6) C=Inherit mode=refuse -> accepted with mask 0x2".into());
-        sp.done(true, &format!("all (A,B,C,mode) over {n} AS atoms"));
+        sp.sample_str(|| "A=0x3 B=Blocks(0x6) leaf=ee C=Inherit mode=refuse -> accepted with mask 0x2".into());
+        sp.sample_str(|| "A=0x3 B=Inherit leaf=router C=Blocks(0x4) mode=refuse -> rejected (CA2 effectively holds 0x3)".into());
+        sp.done(true, &format!("all (A,B,C,mode) over {n} AS atoms x 4 leaf routes"));
     }
 
     //---------------------------------------------------------------- bit flips
